@@ -341,7 +341,9 @@ type Memory struct {
 	mx               sync.Mutex
 	tr               *tracer
 	cacheTrackedIdxs []int
-	lastRec          *amhist.TimeRecord
+	// the previous forked write, requires [Memory.mx]
+	lastWrite <-chan struct{}
+	lastRec   *amhist.TimeRecord
 }
 
 func NewMemory(
@@ -666,9 +668,16 @@ func (m *Memory) writeDb(rLocked bool) <-chan struct{} {
 	l := len(times)
 	m.SavePending.Add(-int32(l))
 
+	prev := m.lastWrite
+	m.lastWrite = done
+
 	// fork
 	go func() {
 		defer close(done)
+		// keep the batches in order (the machine record travels with them)
+		if prev != nil {
+			<-prev
+		}
 		if rLocked {
 			defer m.syncMx.RUnlock()
 		}
